@@ -565,7 +565,8 @@ fn verif_build_long_histories()
       C01  after a successful build every target equals what the real build() gives on a FRESH file system holding the same
            non-target files (a from-scratch build; if that one fails nothing is compared)
       C02  a build right after a successful build (or after build + clean) runs no command when the target contents are pairwise different
-      C04 / C20  a build marked BuildErrors(n) reports exactly n failures
+      C04 / C20  a build marked BuildErrors(n) reports exactly n failures; one marked BuildReport(n, names) also names every
+           missing file in the rendered report
       C05  build() / clean() return (a panic is a disagreement)
       C07 / C08  as above (cache entries named by content; contents held before are held after)
       C09  no non-target file outside the ruler directory changes, none appears or disappears, and the set of directories outside
@@ -575,7 +576,7 @@ fn verif_build_long_histories()
       C18  the same history with the table erased before every invocation gives the same verdicts and files
     --------------------------------------------------------------------------------------------------------------------------- */
 #[derive(Clone, Copy, Debug, PartialEq)]
-enum Op { Build, BuildErrors(usize), Clean, Write(&'static str, &'static str), Delete(&'static str), RemoveDir(&'static str), MkDir(&'static str), SetExec(&'static str) }
+enum Op { Build, BuildErrors(usize), BuildReport(usize, &'static [&'static str]), Clean, Write(&'static str, &'static str), Delete(&'static str), RemoveDir(&'static str), MkDir(&'static str), SetExec(&'static str) }
 struct Mini { name: &'static str, rules: &'static str, files: &'static [(&'static str, &'static str)], dirs: &'static [&'static str], targets: &'static [&'static str], histories: Vec<Vec<Op>> }
 
 type Snap = (std::collections::BTreeMap<String, (String, std::time::SystemTime, bool)>, BTreeSet<String>);
@@ -632,7 +633,7 @@ fn run_mini(m: &Mini, h: &Vec<Op>, drop_table: bool) -> Outcome
             Op::RemoveDir(p) => { if system.is_dir(p) { let _ = system.remove_dir(p); } quiet_since_ok_build = false; },
             Op::MkDir(p) => { if !system.is_dir(p) { system.create_dir(p).unwrap(); } quiet_since_ok_build = false; },
             Op::SetExec(p) => { if system.is_file(p) { system.set_is_executable(p, true).unwrap(); } quiet_since_ok_build = false; },
-            Op::Build | Op::BuildErrors(_) =>
+            Op::Build | Op::BuildErrors(_) | Op::BuildReport(_, _) =>
             {
                 is_ruler = true;
                 if drop_table && system.is_file(".ruler/current_file_states") { system.remove_file(".ruler/current_file_states").unwrap(); }
@@ -645,7 +646,20 @@ fn run_mini(m: &Mini, h: &Vec<Op>, drop_table: bool) -> Outcome
                 let ok = result.is_ok();
                 verdicts.push(ok);
                 let ran = system.get_command_log()[log_before..].len();
-                if let Op::BuildErrors(n) = op
+                /*  the failure report as the user sees it (main prints the error with `{}`): every missing file is named in it */
+                if let Op::BuildReport(_, names) = op
+                {
+                    let text = match &result { Err(e) => format!("{}", e), Ok(()) => String::new() };
+                    for name in names.iter()
+                    {
+                        if !text.contains(name)
+                        {
+                            complaints.push(("B-build-C04".to_string(), format!("{} is missing and the failure report does not name it: {:?}", name, text)));
+                            complaints.push(("B-build-C20".to_string(), format!("{} is missing and the failure report does not name it: {:?}", name, text)));
+                        }
+                    }
+                }
+                if let Op::BuildErrors(n) | Op::BuildReport(n, _) = op
                 {
                     let got = match &result { Err(crate::build::BuildError::WorkErrors(v)) => v.len(), Err(_) => 1, Ok(()) => 0 };
                     if got != *n
@@ -827,6 +841,15 @@ mycat
 absent.txt
 far.txt
 :
+
+further.txt
+:
+nowhere.txt
+:
+mycat
+nowhere.txt
+further.txt
+:
 ";
 
 #[test]
@@ -860,11 +883,11 @@ fn verif_build_mini_scenarios()
                    vec![Build, SetExec("tool.sh"), Build, Write("tool.src", "#!/bin/sh\necho tool 2\n"), Build, Write("tool.src", "#!/bin/sh\necho tool\n"), Build],
                ] },
         Mini { name: "several rules fail alike", rules: RULES_FAILS, files: &[("in.txt", "input\n")], dirs: &[],
-               targets: &["left.txt", "right.txt", "middle.txt", "far.txt"],
+               targets: &["left.txt", "right.txt", "middle.txt", "far.txt", "further.txt"],
                histories: vec![
-                   vec![BuildErrors(3)],
-                   vec![BuildErrors(3), BuildErrors(3)],
-                   vec![BuildErrors(3), Write("absent.txt", "now here\n"), BuildErrors(2)],
+                   vec![BuildReport(4, &["absent.txt", "nowhere.txt"])],
+                   vec![BuildErrors(4), BuildReport(4, &["absent.txt", "nowhere.txt"])],
+                   vec![BuildErrors(4), Write("absent.txt", "now here\n"), BuildReport(3, &["nowhere.txt"]), Write("nowhere.txt", "here too\n"), BuildErrors(2)],
                ] },
     ];
     let names = ["B-build-C01", "B-build-C02", "B-build-C04", "B-build-C05", "B-build-C07", "B-build-C08", "B-build-C09", "B-build-C10", "B-build-C18", "B-build-C20"];
